@@ -118,12 +118,65 @@ theorem placed_of (file : Array UInt8) (nw : NodeWriter) (c H : Nat) (hv : codec
 
 /-! ### the chunks of a placed tree, leaf by leaf -/
 
+/-- the CRange the reader computes for resource id `r` (0 = none): empty, or the recorded
+`COffset|CLength` of that resource, shifted by `dataCOffset` -/
+def ResRange (nw : NodeWriter) (r : Nat) (rg : Rng) : Prop :=
+  if r = 0 then rg.lo = rg.hi
+  else rg.lo = nw.resourcesCOffCLens.getD r 0 % 2 ^ 48 + nw.dataCOffset ∧
+    rg.hi = (if nw.resourcesCOffCLens.getD r 0 / 2 ^ 48 = 0 then nw.cFileSize
+      else min nw.cFileSize (nw.resourcesCOffCLens.getD r 0 % 2 ^ 48 + nw.dataCOffset +
+        nw.resourcesCOffCLens.getD r 0 / 2 ^ 48 * 1024))
+
 /-- what the reader's chunk for leaf `o`, whose DRange starts at `dlo`, looks like -/
 def ChunkFor (nw : NodeWriter) (c : Nat) (o : WNode) (dlo : Nat) (ch : Chunk) : Prop :=
   ch.dRange = ⟨dlo, dlo + o.dRangeSize⟩ ∧ ch.codec = c ∧
   ch.cPrimary.lo = o.cOffsetCLength % 2 ^ 48 + nw.dataCOffset ∧
   ch.cPrimary.hi = (if o.cOffsetCLength / 2 ^ 48 = 0 then nw.cFileSize
-    else min nw.cFileSize (o.cOffsetCLength % 2 ^ 48 + nw.dataCOffset + o.cOffsetCLength / 2 ^ 48 * 1024))
+    else min nw.cFileSize (o.cOffsetCLength % 2 ^ 48 + nw.dataCOffset + o.cOffsetCLength / 2 ^ 48 * 1024)) ∧
+  ResRange nw o.secondary ch.cSecondary ∧ ResRange nw o.tertiary ch.cTertiary
+
+theorem idxOf_of_mem (rs : List Nat) (r : Nat) (h : r ∈ rs) :
+    ∃ i, rs.idxOf? r = some i ∧ i < rs.length ∧ rs.getD i 0 = r := by
+  unfold List.idxOf?
+  cases hf : List.findIdx? (fun x => x == r) rs with
+  | none =>
+    rw [List.findIdx?_eq_none_iff] at hf
+    have := hf r h
+    simp at this
+  | some i =>
+    obtain ⟨hi, hp, _⟩ := List.findIdx?_eq_some_iff_getElem.mp hf
+    refine ⟨i, rfl, hi, ?_⟩
+    rw [List.getD_eq_getElem?_getD, List.getElem?_eq_getElem hi]
+    simpa using hp
+
+/-- the CRange of the resource a leaf names through its STag/TTag -/
+theorem res_range (nw : NodeWriter) (cs : List WNode) (rs : List Nat) (c : Nat) (ok : NodeOK nw cs rs c)
+    (off db r : Nat) (hr : r ≠ 0 → r ∈ rs) :
+    ∃ rg, makeCRange (parsedBranch nw cs rs c off 0 db) (resourceToTagByte rs r (codecIsLong c).toNat) = .ok rg ∧
+      ResRange nw r rg := by
+  have hL := long_le_one c
+  have hA := ok.arity
+  have hne : cs.length ≠ 0 := fun h0 => ok.nonempty (List.eq_nil_of_length_eq_zero h0)
+  by_cases h0 : r = 0
+  · subst h0
+    rw [resourceToTagByte_zero]
+    unfold makeCRange
+    rw [if_pos (by rw [pb_arity]; omega)]
+    exact ⟨_, rfl, by simp [ResRange]⟩
+  · obtain ⟨i, hi1, hi2, hi3⟩ := idxOf_of_mem rs r (hr h0)
+    have htag : resourceToTagByte rs r (codecIsLong c).toNat = (codecIsLong c).toNat + i := by
+      unfold resourceToTagByte
+      have : (r != 0) = true := by simpa using h0
+      rw [if_pos this, hi1]; simp only; omega
+    rw [htag]
+    obtain ⟨rg, g1, g2⟩ := pb_makeCRange nw cs rs c ok off 0 db ((codecIsLong c).toNat + i) (by omega)
+    obtain ⟨lo1, hi1'⟩ := g2 (by omega)
+    rw [vCO_res nw cs rs c i hi2, hi3] at lo1 hi1'
+    simp only [Nat.zero_add] at lo1 hi1'
+    refine ⟨rg, g1, ?_⟩
+    unfold ResRange
+    rw [if_neg h0]
+    exact ⟨lo1, hi1'⟩
 
 /-- chunk list vs. leaf list, with the running DSpace offset -/
 def Matches (nw : NodeWriter) (c : Nat) : List Chunk → List WNode → Nat → Prop
@@ -234,8 +287,21 @@ theorem chunks_match (file : Array UInt8) (nw : NodeWriter) (n : WNode) (db : Na
         rw [show (codecIsLong c).toNat + rs.length + pre.length + 1 - ((codecIsLong c).toNat + rs.length) = pre.length + 1 by omega,
           prefixSize_succ cs pre.length hj, hget]
         omega
+      have htags := ok.tags o (by rw [← hget]; exact getD_mem cs pre.length default hj)
+      obtain ⟨rg2, q2, q2'⟩ := res_range nw cs rs c ok 0 db o.secondary htags.1
+      obtain ⟨rg3, q3, q3'⟩ := res_range nw cs rs c ok 0 db o.tertiary htags.2
+      have hst := pb_stag nw cs rs c ok 0 0 db _ hA
+      rw [vS_child, hget] at hst
+      have htt := pb_ttag nw cs rs c ok 0 0 db _ hA
+      have hvt : vT cs rs c ((codecIsLong c).toNat + rs.length + pre.length) =
+          resourceToTagByte rs o.tertiary (codecIsLong c).toNat := by
+        unfold vT
+        rw [if_neg (by omega), if_neg (by omega)]
+        simp only [show (codecIsLong c).toNat + rs.length + pre.length - (codecIsLong c).toNat - rs.length = pre.length by omega]
+        unfold childTTag; rw [hget, hbr']; simp
+      rw [hvt] at htt
       unfold ChunkFor leafChunk
       simp only [hdoff, hd2]
-      rw [hb, g1]
-      refine ⟨?_, ?_, lo1, hi1⟩ <;> first | rfl | trivial
+      rw [hb, g1, hst, htt, q2, q3]
+      refine ⟨?_, ?_, lo1, hi1, q2', q3'⟩ <;> first | rfl | trivial
 end WuffsVerif.Rac
